@@ -31,8 +31,12 @@ PROPERTIES = {
     "C03": {
         "decided_by": "Proved: none-spurious / none-duplicated from the invariant (I-norm, I-key) of the verified expansion core; none-missing for BFS and "
                       "DFS from their postcondition (True => every reachable node expanded) and node_is_minimal = expanded leaf; skip_to_minimal, "
-                      "skip_remaining and make_skip_node attach exactly the minimal trap spaces inside the node (SkipOK signature).",
-        "bounded": "block / SCC / minimal-space / attractor-seed strategies end to end vs brute-force minimal trap spaces",
+                      "skip_remaining and make_skip_node attach exactly the minimal trap spaces inside the node (SkipOK signature); "
+                      "expand_minimal_spaces returns True only when every minimal trap space inside the start node is the space of an expanded, "
+                      "successor-free node (its internal completeness assertion is a declared exceptional outcome, not proved impossible); the "
+                      "public wrapper methods pass their arguments on unchanged (delegation contracts).",
+        "bounded": "block / SCC / attractor-seed strategies (their drivers are assumed as abstract outcomes) and all strategies end to end vs "
+                   "brute-force minimal trap spaces",
         "excluded": [],
         "trusted": ["L3/L12 (Lean): leaves of the full diagram are the minimal trap spaces", "L13 (cited): block / source-SCC independence"],
     },
@@ -46,7 +50,8 @@ PROPERTIES = {
         "trusted": ["trappist_async call-site contract", "AEON Percolation = Perc", "L10"],
     },
     "C05": {
-        "decided_by": "Proved: skip_to_minimal, skip_remaining, make_skip_node turn a stub into a skip node whose successors are exactly the minimal trap "
+        "decided_by": "Proved: skip_to_minimal, skip_remaining, make_skip_node (and its only caller expand_minimal_spaces, which applies it only to stubs "
+                      "that are not minimal trap spaces themselves) turn a stub into a skip node whose successors are exactly the minimal trap "
                       "spaces inside it (I-skip), discard its cached attractor data, and leave expanded nodes untouched; compute_attractor_candidates "
                       "covers the owned attractors for the CURRENT successor signature.  The per-node skip-exclusion rule of the candidate "
                       "computation (regions of nodes with empty caches are removed) is known to lose attractors: known finding D12.",
@@ -167,7 +172,8 @@ PROPERTIES = {
         "decided_by": "Proved: the abstract diagram below a node is a function of (network, node space): __init__, _ensure_node, _expand_one_node, "
                       "node_successors, expand_bfs have functional postconditions (I-norm, ids allocated in attachment order, sources fixed jointly at "
                       "the root).  With L14 (Lean: trap spaces and attractors of a disjoint union are the pairwise products) and the restriction lemma "
-                      "this gives the product and input-conditioning clauses for BFS-built diagrams.",
+                      "this gives the product and input-conditioning clauses for BFS-built diagrams.  expand_block / expand_scc reach their "
+                      "drivers with the caller's arguments unchanged (delegation contracts against an abstract outcome of the driver).",
         "bounded": "disjoint unions, input valuations under build / block / scc / attractor-seed / dfs strategies, published models <= 12 variables vs AEON",
         "excluded": ["agreement with an independent computation on large published models is empirical by nature",
                      "expand_source_blocks / expand_source_SCCs / attach_scc_subdiagram are not under contract (bounded only)"],
